@@ -30,8 +30,14 @@ def _plain(x):
     return x
 
 
+def _is_larr(a):
+    return getattr(a, "__larr__", False)
+
+
 def _has_sym(a):
     if isinstance(a, (SNum, SBool)):
+        return True
+    if getattr(a, "__larr__", False):
         return True
     if isinstance(a, SArr):
         return True
@@ -1273,7 +1279,10 @@ class _Linalg:
     qr = _unsup("qr")
     pinv = _unsup("pinv")
     matrix_rank = _unsup("matrix_rank")
-    multi_dot = _unsup("multi_dot")
+    def multi_dot(self, arrays, out=None):
+        if any(_has_sym(x) for x in arrays):
+            return functools.reduce(lambda a, b: _dot(a, b), arrays)
+        return rnp.linalg.multi_dot(arrays)
 
 
 STUBS = {}  # contract-provided stubs for external numerics, by dotted name
@@ -1317,25 +1326,36 @@ class Shim(types.ModuleType):
     # ---- creation
     def _mk(self, shape, dtype, fill):
         dt = _ldt_from(dtype)
-        if isinstance(shape, (int, rnp.integer)):
-            shape = (int(shape),)
+        if isinstance(shape, (int, rnp.integer, SNum)):
+            shape = (shape,)
+        symd = [i for i, d in enumerate(shape) if isinstance(d, SNum) and not z3.is_int_value(z3.simplify(d.t))]
+        if symd:
+            if len(symd) > 1:
+                raise Unsupported("array with two symbolic dimensions")
+            from . import larr
+
+            N = shape[symd[0]].t
+            rest = tuple(int(d) for i, d in enumerate(shape) if i != symd[0])
+            row = rnp.empty(rest, dtype=object)
+            row[...] = fill(dt)
+            return larr.LArr(N, larr.index_for(N), wrap(row, dt), symd[0], dt)
         shape = tuple(int(s) for s in shape)
         out = rnp.empty(shape, dtype=object)
         out[...] = fill(dt)
         return wrap(out, dt)
 
     def zeros(self, shape, dtype=None, order="C", **kw):
-        if not core.active():
+        if not core.active() and not _has_sym(shape):
             return rnp.zeros(shape, dtype=dtype)
         return self._mk(shape, dtype, _zero_of)
 
     def empty(self, shape, dtype=None, order="C", **kw):
-        if not core.active():
+        if not core.active() and not _has_sym(shape):
             return rnp.empty(shape, dtype=dtype)
         return self._mk(shape, dtype, _zero_of)
 
     def ones(self, shape, dtype=None, order="C", **kw):
-        if not core.active():
+        if not core.active() and not _has_sym(shape):
             return rnp.ones(shape, dtype=dtype)
         return self._mk(shape, dtype, _one_of)
 
@@ -1376,6 +1396,9 @@ class Shim(types.ModuleType):
 
     # ---- coercion
     def array(self, a, dtype=None, copy=True, order="K", subok=False, ndmin=0, **kw):
+        if _is_larr(a):
+            r = a.astype(dtype) if dtype is not None else a
+            return r.copy() if copy else r
         if _has_sym(a):
             if copy is False and not isinstance(a, SArr):
                 raise ValueError("Unable to avoid copy while creating an array as requested.")
@@ -1390,6 +1413,8 @@ class Shim(types.ModuleType):
         return rnp.array(a, dtype=dtype, copy=copy, order=order, subok=subok, ndmin=ndmin)
 
     def asarray(self, a, dtype=None, order=None, **kw):
+        if _is_larr(a):
+            return a.astype(dtype) if (dtype is not None and rnp.dtype(dtype) != a.ldt) else a
         if _has_sym(a):
             if isinstance(a, SArr) and (dtype is None or rnp.dtype(dtype) == a.ldt):
                 return a
@@ -1412,6 +1437,8 @@ class Shim(types.ModuleType):
         return rnp.require(a, dtype=dtype, requirements=requirements)
 
     def copy(self, a, **kw):
+        if _is_larr(a):
+            return a.copy()
         if _has_sym(a):
             return to_sarr(a).copy()
         return rnp.copy(a, **kw)
@@ -1420,6 +1447,8 @@ class Shim(types.ModuleType):
     def _join(name):
         def f(self, seq, *a, **k):
             real = getattr(rnp, name)
+            if isinstance(seq, (list, tuple)) and any(_is_larr(s) for s in seq):
+                return real(seq, *a, **k)
             if isinstance(seq, (list, tuple)) and any(_has_sym(s) for s in seq):
                 seq = [_plain(to_sarr(s)) for s in seq]
                 k.pop("dtype", None)
@@ -1452,23 +1481,31 @@ class Shim(types.ModuleType):
         return self.__getattr__("absolute")(x, *a, **k)
 
     def sum(self, a, axis=None, **kw):
+        if _is_larr(a):
+            return getattr(a, "sum")(axis=axis)
         if isinstance(a, (list, tuple)) and _has_sym(a) or isinstance(a, SArr):
             kw.pop("dtype", None)
             return to_sarr(a).sum(axis=axis, **kw)
         return rnp.sum(a, axis=axis, **kw)
 
     def prod(self, a, axis=None, **kw):
+        if _is_larr(a):
+            return getattr(a, "prod")(axis=axis)
         if isinstance(a, (list, tuple)) and _has_sym(a) or isinstance(a, SArr):
             kw.pop("dtype", None)
             return to_sarr(a).prod(axis=axis, **kw)
         return rnp.prod(a, axis=axis, **kw)
 
     def max(self, a, axis=None, **kw):
+        if _is_larr(a):
+            return getattr(a, "max")(axis=axis)
         if _has_sym(a):
             return to_sarr(a).max(axis=axis, **kw)
         return rnp.max(a, axis=axis, **kw)
 
     def min(self, a, axis=None, **kw):
+        if _is_larr(a):
+            return getattr(a, "min")(axis=axis)
         if _has_sym(a):
             return to_sarr(a).min(axis=axis, **kw)
         return rnp.min(a, axis=axis, **kw)
@@ -1477,6 +1514,11 @@ class Shim(types.ModuleType):
     amin = min
 
     def tile(self, a, reps):
+        if isinstance(reps, tuple) and len(reps) == 2 and isinstance(reps[0], SNum) and reps[1] == 1:
+            from . import larr
+
+            N = reps[0].t
+            return larr.LArr(N, larr.index_for(N), to_sarr(a).reshape(-1), 0)
         if _has_sym(a):
             return wrap(rnp.tile(_plain(to_sarr(a)), reps))
         return rnp.tile(a, reps)
@@ -1502,6 +1544,8 @@ class _UfuncWrapper:
 
     def __call__(self, *args, **kw):
         ins = args[: self.real.nin]
+        if any(_is_larr(x) for x in ins):
+            return self.real(*args, **kw)
         if any(isinstance(x, (SNum, SBool)) for x in ins) and not any(isinstance(x, _ND) for x in ins) and not any(isinstance(x, (list, tuple)) for x in ins):
             return UF[self.real.__name__](*[x.item() if isinstance(x, rnp.generic) else x for x in ins])
         if any(_has_sym(x) for x in ins):
@@ -1541,6 +1585,8 @@ class _FuncWrapper:
         self.__name__ = getattr(real, "__name__", "f")
 
     def __call__(self, *args, **kw):
+        if any(_is_larr(x) for x in args) or (args and isinstance(args[0], (list, tuple)) and any(_is_larr(x) for x in args[0])):
+            return self.real(*args, **kw)
         if any(_has_sym(x) for x in args) or any(_has_sym(v) for v in kw.values()):
             return self.handler(*args, **kw)
         return self.real(*args, **kw)
